@@ -1,6 +1,6 @@
 """C13: trash-restore offers the right entries and restores exactly the
 indices chosen."""
-from . import restore
+from . import restore, options
 
 PROPERTY = 'C13'
 LEVEL_NOTE = ('scope predicate == component-boundary spec for every pair of '
@@ -12,6 +12,10 @@ LEVEL_NOTE = ('scope predicate == component-boundary spec for every pair of '
               'most 2 parts with ranges of at most 2 elements: that bound is a '
               'BOUNDED stand-in, the rest is unbounded')
 EXPECTED = [
+    'restore-options/overwrite-only-with-its-flag',
+    'restore-options/sort-key-maps-to-its-mode',
+    'restore-options/path-is-the-operand-under-the-current-directory-normalised',
+    'restore-options/trash-dir-is-the-option-value',
     'trashcli.restore.trashed_file.TrashedFile.original_location_matches_path/post/component-boundary-scope',
     'parse_indexes/part/single-is-the-integer-of-a-dashless-part',
     'parse_indexes/part/range-is-a-b-with-both-ends-integers',
@@ -32,6 +36,7 @@ def build(S, tier, seed):
     restore.parse_part_vc(S)
     restore.pipeline_vc(S)
     restore.sort_vc(S)
+    options.restore_options_vc(S)
 
 
 def reply_battery(repo):
@@ -148,5 +153,7 @@ def finalize_args(S, tier, seed):
                                  'elements, lists of 0 or 2 entries',
                          'bounded_cuts': getattr(S.stats, 'bounded_cuts', 0),
                          'counts_as_proof': False}],
-            'extra_assumptions': ['argparse wiring of trash-restore (path, '
-                                  '--sort choices, --overwrite) is assumed']}
+            'extra_assumptions': ['argparse is modelled (pyvc/argmodel.py) for '
+                                  'canonical argument vectors; the option VC '
+                                  'restore-options is bounded to <= 2 option '
+                                  'tokens and <= 1 operand']}
